@@ -127,6 +127,27 @@ fn check_doc(name: &str, src: &str) -> bool {
         let _ = traverse::find_symbol(ast, filter_of(level), |_| { n += 1; true });
         if !want.is_empty() && n != 1 { println!("WITNESS case={} find_symbol level={} visits {} symbols after a match; source: {}", name, level, n, src); ok = false; }
     }
+    // C16: every position of the document, every filter level: first symbol of the reference order whose name range contains it
+    for level in 0u8..3 {
+        let mut syms = Vec::new();
+        traverse::walk_symbols(ast, filter_of(level), |s| syms.push(s));
+        let want_ids = reference(ast, level);
+        if syms.iter().map(sid).collect::<Vec<_>>() != want_ids { continue; } // already reported above
+        for (ln, line) in src.split('\n').enumerate() {
+            for col in 1..=(line.chars().count() + 1) {
+                let pos = (ln + 1, col);
+                ev(1);
+                let contains = |r: &Range| (r.start.line_col <= pos) && (pos <= r.end.line_col);
+                let want = syms.iter().find(|s| contains(s.get_range())).map(sid);
+                let got = traverse::find_symbol_at_line_col(ast, filter_of(level), pos).as_ref().map(sid);
+                if got != want {
+                    println!("WITNESS property=C16 case={} find_symbol_at_line_col level={} at {:?} returns {:?}, expected {:?}; source: {:?}", name, level, pos, got.map(|x| x.0), want.map(|x| x.0), src);
+                    ok = false;
+                    break;
+                }
+            }
+        }
+    }
     // walk_types / walk_methods / walk_args
     let all = reference(ast, 2);
     let want_t: Vec<usize> = all.iter().filter(|x| x.0 == 10).map(|x| x.1).collect();
@@ -174,6 +195,11 @@ fn c15_all() {
     ];
     let mut ok = true;
     for (n, s) in cases.iter() { ok &= check_doc(n, s); }
+    // the same documents with every space turned into a line break (types above names), LF and CRLF, multi-byte text before names
+    for (n, s) in cases.iter() {
+        ok &= check_doc(n, &s.replace(' ', "\n"));
+        ok &= check_doc(n, &s.replace("; ", ";\r\n /* é中 */ "));
+    }
     // generated family: every member form x type shapes nested to depth 3 (arrays of generics, generics of arrays)
     let shapes = ["int", "Foo", "int[]", "Foo[][]", "List<Foo>", "List<String>[]", "Map<String, Foo>", "Map<String, List<Foo[]>>", "List<Map<String, int[]>>[]", "Map<String, Map<String, List<Foo>>>"];
     let mut n_gen = 0;
